@@ -395,6 +395,13 @@ func (m *Member) crash() {
 	for _, c := range w.cl.conns {
 		if c.member == m.id {
 			c.zombie = true
+			if w.cl.zombieNotFound {
+				for _, q := range c.queue {
+					if q.pkt.Command == memd.CmdGet || q.pkt.Command == memd.CmdSubDocMultiLookup {
+						go c.write(&memd.Packet{Magic: memd.CmdMagicRes, Command: q.pkt.Command, Opaque: q.pkt.Opaque, Status: memd.StatusKeyNotFound})
+					}
+				}
+			}
 			c.queue = nil
 		}
 	}
